@@ -89,15 +89,21 @@ def run(tier):
             spell = {(tuple(s[0]), s[1]) for s in c["spellings"]}
             classes_seen.add((cls, min(spell)))
             lig_ids = [i for i in ids if i != 1]
+            c_el = centre_el
             els = {1: centre_el}
             pool = lig_pool[:]
             rnd.shuffle(pool)
             for k, i in enumerate(sorted(lig_ids)):
                 els[i] = pool[k % len(pool)]
+            if cls == "SquarePlanar" and n_cases % 3 == 0:
+                # strongly heteroleptic planar centre: two short bonds trans to each other, two long ones (planar CH2I2):
+                # a cis ligand is then farther away than the trans one
+                c_el = 6
+                els = {1: 6, ids[1]: 1, ids[3]: 1, ids[2]: 53, ids[4]: 53}
             # ---- (1) atom_stereo_from_coords with arbitrary identifiers and handing order ----
             order = lig_ids[:]
             rnd.shuffle(order)
-            pts = geom.star_geometry(centre_el, [coords_by_id[i] - coords_by_id[1] for i in order],
+            pts = geom.star_geometry(c_el, [coords_by_id[i] - coords_by_id[1] for i in order],
                                      [els[i] for i in order], rnd)
             pts = geom.rigid(pts, rnd)
             okgp = geom.subset_clear(list(pts[1:]))
@@ -135,7 +141,7 @@ def run(tier):
             seq = [1] + lig_ids
             rnd.shuffle(seq)
             index_of = {i: k for k, i in enumerate(seq)}
-            pts2 = geom.star_geometry(centre_el, [coords_by_id[i] - coords_by_id[1] for i in lig_ids], [els[i] for i in lig_ids], rnd)
+            pts2 = geom.star_geometry(c_el, [coords_by_id[i] - coords_by_id[1] for i in lig_ids], [els[i] for i in lig_ids], rnd)
             pts2 = geom.rigid(pts2, rnd)
             by_id = {1: pts2[0]}
             for k, i in enumerate(lig_ids):
